@@ -203,8 +203,8 @@ Qed.
 Lemma ni_unroll_args_in_group gid : unroll_args_in_group c' gid = unroll_args_in_group c gid.
 Proof. unfold unroll_args_in_group. rewrite ni_unroll_group_loop. reflexivity. Qed.
 
-Lemma ni_unroll_requires_loop func : forall fuel rv pr args,
-  unroll_requires_loop c' func fuel rv pr args = unroll_requires_loop c func fuel rv pr args.
+Lemma ni_unroll_requires_loop func root : forall fuel rv pr args,
+  unroll_requires_loop c' func root fuel rv pr args = unroll_requires_loop c func root fuel rv pr args.
 Proof.
   induction fuel as [|fu IH]; intros rv pr args; [reflexivity|]. cbn [unroll_requires_loop].
   destruct rv as [|a rest]; [reflexivity|]. destruct (mem_id a pr); [apply IH|].
